@@ -12,7 +12,7 @@ pub fn def() -> CheckDef {
         id: "C01",
         title: "Progress: a quiescent, unfinished process is always waiting on a client",
         case: case,
-        rule: "case = generated control-flow model (steps, if/else/needs branches in shuffled declaration order, conditional steps/acts, irq/msg acts, depth<=3) x one valuation of (a,b) x seeded scheduler policy; non-trivial = some branch task was `pending` at some point of the run, or the run had >= 2 simultaneously ready tasks at >= 5 scheduling points and an interrupt was answered; distinct = distinct (model+valuation+client hash, schedule hash)",
+        rule: "case = generated control-flow model (steps, if/else/needs branches in shuffled declaration order, conditional steps/acts, irq/msg acts, depth<=3; a fifth with lifecycle-hook acts on workflow and steps) x one valuation of (a,b) x seeded scheduler policy; non-trivial = some branch task was `pending` at some point of the run, or the run had >= 2 simultaneously ready tasks at >= 5 scheduling points and an interrupt was answered; distinct = distinct (model+valuation+client hash, schedule hash)",
         level: "exploration",
         assumptions: &["monotone simulated clock", "clients are in-process callers", "no storage errors are injected"],
         probes: &["probe.branch_pending", "probe.else_after_sibling_decided", "probe.needs_branch", "probe.lifecycle_hooks"],
